@@ -1,6 +1,6 @@
 SPECIFICATION GSpec
 CONSTANTS Steps = 9
-  Ops = {"new1", "new2", "new3", "mv21", "mv31", "mv12", "mv32", "mv13", "mv11", "mv41", "mv24", "dest1", "dest2", "dest3", "lddest", "ldkeep"}
+  Ops = {"new1", "new2", "new3", "mv21", "mv31", "mv12", "mv32", "mv13", "mv11", "mv41", "mv24", "dest1", "dest2", "dest3", "lddest", "ldkeep", "lireenter", "liplain"}
   CreateHooks = {"none", "wmv:me:o1", "wdest:me", "wmv:o1:me", "wnew:auto:/obj/w3", "err"}
   InitHooks = {"none", "wdest:o2", "wdest:me", "wmv:o3:o1", "wdest:o1", "wmv:o2:o3", "err"}
   ModHooks = {"stay", "go", "wdest:me", "wdest:o3", "err", "wmv:me:o3", "wdest:o1"}
